@@ -205,3 +205,71 @@ Proof. eexists. repeat split; vm_compute; reflexivity. Qed.
    property has no coordinates to speak about there; check_C19 flags every such case F_PROPFAIL. *)
 Example C19_binary_refuted : forall p t, reingold_tilford_binary p t = Raise AttributeError.
 Proof. reflexivity. Qed.
+
+(* ---------------------------------------------------------------------------------------------
+   After ANY history (arbitrary start state, arbitrary lists of edits - reverse, insert, delete,
+   move, cut, re-root - and arbitrary parameters of the earlier layouts) the last layout satisfies
+   every clause that holds on fresh trees: shape, levels, parent midpoint, sibling order and
+   separation, non-negative x; and cousin separation under the guard. *)
+Theorem C19_after_any_history : forall eps st steps es p, 0 <= eps -> params_pos p ->
+  let t := tree_of_d (apply_edits es (fst (run_steps st steps))) in
+  prop_C19_but_cousins eps p t (snd (run_steps st (steps ++ [(es, p)]))) = true
+  /\ (cousin_guard2 t = true -> prop_C19 eps p t (snd (run_steps st (steps ++ [(es, p)]))) = true).
+Proof. exact history_but_cousins. Qed.
+Print Assumptions C19_after_any_history.
+
+(* non-vacuity: a history with a move of an inner node, a cut and a re-rooting ends in an 8-node tree of height 4 *)
+Example C19_history_example :
+  let st0 := layout unit_params (zero_d (nd [nd [nd [leaf; leaf]; leaf]; nd [leaf; nd [leaf]]; leaf])) in
+  let steps := [([EMove [0; 0] [1] 0]%nat, PR 2 1 1 0 0); ([ECut [1]]%nat, unit_params)] in
+  let es := [EReroot [0]%nat 1; EAdd [] 0] in
+  tsize (tree_of_d (apply_edits es (fst (run_steps st0 steps)))) = 8%nat
+  /\ height (tree_of_d (apply_edits es (fst (run_steps st0 steps)))) = 4%nat.
+Proof. split; vm_compute; reflexivity. Qed.
+
+(* ---------------------------------------------------------------------------------------------
+   K1 for infinitely many inputs: the 10-node witness hanging under a chain of n unary nodes
+   (10 + n nodes).  A unary parent neither compares nor shifts anything, so the x coordinates
+   below it are those of the fresh layout of the child; e and h stay 1/2 apart at every n. *)
+Theorem C19_cousins_refuted_family : forall n,
+  params_pos unit_params
+  /\ prop_C19_but_cousins 0 unit_params (under_chain n k1_tree)
+       (reingold_tilford unit_params (under_chain n k1_tree)) = true
+  /\ cousins_ok 0 (p_ss unit_params) (p_sts unit_params)
+       (reingold_tilford unit_params (under_chain n k1_tree)) = false.
+Proof. exact k1_family_refuted. Qed.
+Print Assumptions C19_cousins_refuted_family.
+
+Example C19_family_sizes : forall n, tsize (under_chain n k1_tree) = (n + 10)%nat.
+Proof. intros n. rewrite tsize_under_chain. reflexivity. Qed.
+
+(* ---------------------------------------------------------------------------------------------
+   The widest positive result: cousin separation (any two nodes of one depth, in tree order, at
+   least min(sibling, subtree separation) apart) for every tree with `cousin_safe t = true`
+   (Spec/PC19.v): at every node, any two children a (index j) before b that both have children are
+   both flat (all their children are leaves), or j = 0 and the facing walks are complete.
+   92 % of the ordered trees with <= 9 nodes (1893 of 2056) and 76 % of the generated trees satisfy
+   it; all trees of height <= 3, all trees in which every node has at most one non-leaf child, and
+   the classes of cousin_guard / cousin_guard2 are inside. *)
+Theorem C19_cousins_safe : forall eps p t, 0 <= eps -> params_pos p -> cousin_safe t = true ->
+  cousins_ok eps (p_ss p) (p_sts p) (reingold_tilford p t) = true.
+Proof. exact rt_cousins_safe. Qed.
+Print Assumptions C19_cousins_safe.
+
+(* the sharper necessary shape of every K1 failure: some node has two children with children,
+   a at index j before b, not both flat, and (j >= 1 or a facing walk is incomplete) *)
+Theorem C19_cousins_failure_safe : forall p t, params_pos p ->
+  cousins_ok 0 (p_ss p) (p_sts p) (reingold_tilford p t) = false -> cousin_safe t = false.
+Proof. exact rt_cousins_failure_safe. Qed.
+Print Assumptions C19_cousins_failure_safe.
+
+(* non-vacuity: a tree outside cousin_guard2 (three children with children, the first one deep and
+   the other two flat) is safe; both K1 witnesses and the whole refuted family are not *)
+Definition safe_example : tree :=
+  nd [nd [nd [leaf; leaf]; nd [leaf; nd [leaf]]]; leaf; nd [leaf; leaf; leaf]; nd [leaf; leaf]].
+Example C19_safe_examples :
+  cousin_guard2 safe_example = false /\ cousin_safe safe_example = true /\ tsize safe_example = 17%nat
+  /\ cousin_safe comb3 = true /\ cousin_safe bin3 = true
+  /\ cousin_safe k1_tree = false /\ cousin_safe k1b_tree = false
+  /\ cousin_safe (under_chain 3 k1_tree) = false.
+Proof. repeat split; vm_compute; reflexivity. Qed.
